@@ -152,7 +152,7 @@ class Prop(PropBase):
         inf_ref = case["ref"] == "inf"
         dmF, refF, rateF = X.frac(dmv), (None if inf_ref else X.q_value(r, u.Hz)), X.frac(case["rate"])
         irF = F(0) if inf_ref else 1 / refF
-        Hs, ratios, directs = [], [], []
+        Hs, ratios, directs, tolmax = [], [], [], []
         for c, f_c in enumerate(z.channel_freqs):
             fc = X.q_value(f_c, u.Hz)
             ph, tolk = [], []
@@ -168,6 +168,7 @@ class Prop(PropBase):
             want = np.exp(-2j * np.pi * np.array(ph))
             Hs.append(want)
             ratios.append(float(np.max(np.abs(chm[:, c] - want) / np.array(tolk))))
+            tolmax.append(max(tolk) / (2 * math.pi))
             # the public chirp_function called directly, with the sample spacing, channel centre and reference frequency
             # written in other (legal) units: the same transfer function
             if c in (0, case["n"] - 1):
@@ -183,7 +184,8 @@ class Prop(PropBase):
         out["chirp_ratio"] = max(ratios)
         out["direct_ratio"] = max(directs) if directs else 0.0
         out["chirp_tol_turns"] = [float((abs(float(K_HZ * dmF * X.q_value(f_c, u.Hz) * (irF - 1 / X.q_value(f_c, u.Hz)) ** 2)) + 1.0)
-                                        * 2.0 ** -48 * 160 + 2.0 ** -20 / (2 * math.pi)) for f_c in z.channel_freqs]
+                                        * 2.0 ** -48 * 160 + 2.0 ** -20 / (2 * math.pi)) + tolmax[c]   # (never tighter than the oracle)
+                                  for c, f_c in enumerate(z.channel_freqs)]
         start = math.ceil(-min(0, F(float(dtop)), F(float(dbot))))
         if len(y) > 0:
             Hm = np.stack(Hs, axis=1).reshape((N, case["n"]) + (1,) * (xd.ndim - 2))
